@@ -19,7 +19,7 @@ def run(tier, seed, replay):
                         "filter_zoom / filter_bbox chains over a leaf or an overlay; converting reader: every 8th (thorough: every) "
                         "conversion case of MC_C06; only the stream clauses are collected here", nontrivial, run=run, finish=False)
     c06.converter_stream_stage(run, "C02", tier, replay, 1 if tier == "thorough" else 8)
+    nvt = vtiles.vt_stream_stage(run, tier, C.build_harness(), replay)
     if not replay:
-        nvt = vtiles.vt_stream_stage(run, tier, C.build_harness())
         run.extra.update({"vector_tile_operation_cases (merge / update: stream = lookup for the coordinate)": nvt})
     return run.finish()
